@@ -88,6 +88,8 @@ structure DState where
   T       : Transform := {}
   stream  : String := ""
   flagged : Bool := false
+  /-- the observed collection is a second derived collection chained behind the first -/
+  chain   : Bool := false
   started : Bool := false
   prim    : List Obj := []
   sec     : List Obj := []
@@ -140,7 +142,14 @@ def showMap (m : FinMap) : String :=
     zero-valued delete of a missing output is delivered -/
 def inU (d : DState) (k : Key) : Bool := d.flagged && (d.unsafeK.contains k || k == "")
 
-def spec (d : DState) : FinMap := specContents d.T d.prim d.sec
+/-- `krt.NewCollection(derived, o ↦ o with Val ++ "|c")`: the chained collection's transformation. -/
+def chainMap (m : FinMap) : FinMap := m.map (fun kv => (kv.1, kv.2 ++ "|c"))
+
+def spec (d : DState) : FinMap :=
+  if d.chain then chainMap (specContents d.T d.prim d.sec) else specContents d.T d.prim d.sec
+
+def specLk (d : DState) (ns : String) : FinMap :=
+  if d.chain then chainMap (specLookup d.T d.prim d.sec ns) else specLookup d.T d.prim d.sec ns
 
 /-- No two current inputs claim the same output key (input-level form of the unique-key contract). -/
 def uniqueClaimsB (T : Transform) (prim : List Obj) : Bool :=
@@ -170,7 +179,7 @@ def stepD (d : DState) (toks : List String) : DState × String :=
   | "case" :: _ :: stream :: t :: rest =>
     match parseTransform t with
     | none => ({}, "bad-op")
-    | some T => ({ T := T, stream := stream, flagged := rest.contains "f6" }, "ok")
+    | some T => ({ T := T, stream := stream, flagged := rest.contains "f6", chain := rest.contains "chain" }, "ok")
   | ["p.set", o] =>
     match parseObj o with
     | none => (d, "bad-op")
@@ -208,11 +217,11 @@ def stepD (d : DState) (toks : List String) : DState × String :=
   | ["lookup", ns] =>
     let d := barrier d
     (d, "lookup " ++ answer d false (fun d =>
-      showMap (restrictMap (fun k => !inU d k) (specLookup d.T d.prim d.sec ns))))
+      showMap (restrictMap (fun k => !inU d k) (specLk d ns))))
   | ["ulookup", ns] =>
     let d := barrier d
     (d, "ulookup " ++ answer d true (fun d =>
-      showMap (restrictMap (inU d) (specLookup d.T d.prim d.sec ns))))
+      showMap (restrictMap (inU d) (specLk d ns))))
   | "stream" :: name :: evs =>
     let d := barrier d
     (d, "stream " ++ answer d false (fun d =>
